@@ -110,6 +110,29 @@ def _args_attr(v: ast.AST) -> Optional[str]:
     return None
 
 
+def _expanded_keywords(fn: ast.AST, call: ast.Call):
+    """Keywords of a call with `**name` expanded when `name` is bound once to a dictionary display / dict(k=v, …) in fn."""
+    out = []
+    for k in call.keywords:
+        if k.arg is not None:
+            out.append(k)
+            continue
+        v = k.value
+        if isinstance(v, ast.Name):
+            b = [n.value for n in walk_ordered(fn) if isinstance(n, (ast.Assign, ast.AnnAssign)) and n.value is not None
+                 and norm(n.targets[0] if isinstance(n, ast.Assign) else n.target) == v.id]
+            if len(b) != 1:
+                return None
+            v = b[0]
+        if isinstance(v, ast.Dict) and all(isinstance(kk, ast.Constant) and isinstance(kk.value, str) for kk in v.keys):
+            out += [ast.keyword(arg=kk.value, value=vv) for kk, vv in zip(v.keys, v.values)]
+        elif isinstance(v, ast.Call) and norm(v.func) == "dict" and not v.args and all(x.arg for x in v.keywords):
+            out += list(v.keywords)
+        else:
+            return None
+    return out
+
+
 def _derived(fn: ast.AST, name: str, producers: Set[str], depth: int, seen: Optional[Set[str]] = None) -> Tuple[bool, str]:
     """Is every binding of `name` in fn the API result, something reached from it (method/attribute/element), the data-set
     loop element, or a container filled only with such values?"""
@@ -206,7 +229,10 @@ def check(ctx: Ctx) -> None:
             site = f"{mod}.{fn}→{api}@{sum(1 for x in calls[:calls.index(c) + 1])}"
             ctx.instance("R19.1", f"{site}: {len(c.keywords)} keywords")
             bad = False
-            for k in c.keywords:
+            kws_all = _expanded_keywords(fi.node, c)
+            if kws_all is None:
+                raise AnalysisError(f"{site}: **kwargs forwarding not understood")
+            for k in kws_all:
                 if k.arg is None:
                     raise AnalysisError(f"{site}: **kwargs forwarding not understood")
                 if k.arg not in params and not has_kwargs:
@@ -357,10 +383,22 @@ def check(ctx: Ctx) -> None:
                 ctx.violation("R19.2", f"{mod}.{fn}:{api}:data", fi.module, c, f"cli/{mod}.py:{fn}: {api} must receive the element of enumerate(data_sets) (found {dv})")
     # mock specifiers
     pi = model.fi(f"{CLI}.utility", "_parse_identity")
-    kt = [n for n in walk_ordered(pi.node) if isinstance(n, ast.Assign) and norm(n.targets[0]) == "kwarg_types" and isinstance(n.value, ast.Dict)]
-    if len(kt) != 1:
-        raise AnalysisError("_parse_identity: kwarg_types table not found")
-    table = {k.value: norm(v) for k, v in zip(kt[0].value.keys, kt[0].value.values)}
+    # the conversion table is whatever mapping the store `kwargs[key] = T[key](value)` applies, local or module-level
+    st_kw = [n for n in walk_ordered(pi.node) if isinstance(n, ast.Assign) and isinstance(n.targets[0], ast.Subscript) and norm(n.targets[0].value) == "kwargs"
+             and isinstance(n.value, ast.Call) and isinstance(n.value.func, ast.Subscript) and len(n.value.args) == 1]
+    if len(st_kw) != 1:
+        raise AnalysisError("_parse_identity: the store kwargs[key] = <table>[key](value) was not found")
+    keyvar = norm(st_kw[0].targets[0].slice)
+    tname = norm(st_kw[0].value.func.value)
+    same_key = norm(st_kw[0].value.func.slice) == keyvar
+    from ..elements import module_consts
+    tdef = [n.value for n in walk_ordered(pi.node) if isinstance(n, (ast.Assign, ast.AnnAssign)) and n.value is not None and norm(n.targets[0] if isinstance(n, ast.Assign) else n.target) == tname]
+    if not tdef and tname in module_consts(ctx.repo, f"{CLI}.utility"):
+        tdef = [module_consts(ctx.repo, f"{CLI}.utility")[tname]]
+    if len(tdef) != 1 or not isinstance(tdef[0], ast.Dict):
+        raise AnalysisError(f"_parse_identity: conversion table {tname} is not one dictionary display")
+    kt = [st_kw[0]]
+    table = {k.value: norm(v) for k, v in zip(tdef[0].keys, tdef[0].values)}
     sim = model.fi("pyimpspec.mock_data", "_simulate_spectrum")
     reads: Dict[str, str] = {}
     for c in calls_in(sim.node):
@@ -377,8 +415,13 @@ def check(ctx: Ctx) -> None:
     ctx.instance("R19.2", f"mock specifier keys {sorted(table)} are the keyword arguments generate_mock_data reads {sorted(reads)}, with the same types")
     miss = [k for k in table if k not in reads]
     wrong = [k for k in table if k in reads and reads[k] not in ("?", table[k])]
-    assign_ok = any(isinstance(n, ast.Assign) and norm(n.targets[0]) == "kwargs[key]" and norm(n.value) == "kwarg_types[key](value)" for n in walk_ordered(pi.node))
-    split_ok = "key, value = arg.split('=')" in norm(pi.node) and "identity[i + 1:].split(',')" in norm(pi.node)
+    assign_ok = same_key and norm(st_kw[0].value.args[0]) == "value"
+    # the key/value come from splitting each comma-separated item of the text after the last ':' at '='
+    unp = [n for n in walk_ordered(pi.node) if isinstance(n, ast.Assign) and isinstance(n.targets[0], ast.Tuple) and [norm(e) for e in n.targets[0].elts] == [keyvar, "value"]]
+    split_ok = len(unp) == 1 and isinstance(unp[0].value, ast.Call) and isinstance(unp[0].value.func, ast.Attribute) and unp[0].value.func.attr in ("split", "partition") \
+        and unp[0].value.args and norm(unp[0].value.args[0]) == "'='" and "identity[i + 1:].split(',')" in norm(pi.node)
+    guard_ok = any(isinstance(n, ast.If) and norm(n.test) in (f"{keyvar} in {tname}", f"{keyvar} not in {tname}") for n in walk_ordered(pi.node))
+    split_ok = split_ok and guard_ok
     if not miss and not wrong and assign_ok and split_ok:
         ctx.ok()
     else:
@@ -446,13 +489,26 @@ def check(ctx: Ctx) -> None:
                 n_emit += 1
                 ctx.instance("R19.4", f"{mod}.{fi.qual}: {V} (line {st.lineno}) reaches print_func or write on every path")
 
-                def emits(nd, V=V) -> bool:
+                # names the text flows into (report = f"…{V}…", fragments.append(V) …): emitting one of them emits V
+                carriers = {V}
+                for _ in range(4):
+                    for a_ in [n for n in walk_ordered(fi.node) if isinstance(n, (ast.Assign, ast.AnnAssign, ast.AugAssign)) and getattr(n, "value", None) is not None]:
+                        if any(isinstance(x, ast.Name) and x.id in carriers for x in ast.walk(a_.value)):
+                            t_ = a_.targets[0] if isinstance(a_, ast.Assign) else a_.target
+                            if isinstance(t_, ast.Name):
+                                carriers.add(t_.id)
+                    for c_ in calls_in(fi.node):
+                        if isinstance(c_.func, ast.Attribute) and c_.func.attr in ("append", "extend") and isinstance(c_.func.value, ast.Name) \
+                                and any(isinstance(x, ast.Name) and x.id in carriers for a in c_.args for x in ast.walk(a)):
+                            carriers.add(c_.func.value.id)
+
+                def emits(nd, V=V, carriers=frozenset(carriers)) -> bool:
                     e = own_expr(nd)
                     if e is None:
                         return False
                     for c in calls_in(e):
                         f = norm(c.func)
-                        if (f == "print_func" or f.endswith(".write") or f == "print") and any(isinstance(x, ast.Name) and x.id == V for a in c.args for x in ast.walk(a)):
+                        if (f == "print_func" or f.endswith(".write") or f == "print") and any(isinstance(x, ast.Name) and x.id in carriers for a in c.args for x in ast.walk(a)):
                             return True
                     return False
                 lp = enclosing(st, (ast.For, ast.While))
